@@ -4,6 +4,7 @@ CONSTANTS
   Mode = "chars"
   MaxLen = 3
   MaxTok = 0
+  PumpK = 0
   Advance = FALSE
   Shard = 0
   NShards = 1
